@@ -16,6 +16,7 @@ import (
 
 	cs "verif/h/chainsim"
 	"verif/h/ev"
+	"verif/h/keys"
 	"verif/h/wire"
 )
 
@@ -662,6 +663,32 @@ func TestC06Replay(t *testing.T) {
 		if msg := ledgerCheck(sc, tTx.Fee, preScan, post, chainID); msg != "" {
 			rt.Fatalf("VIOLATION C06: T=%s by %s did not take effect exactly once: %s", mt, signer, msg)
 		}
+		// --- freshly signed for ANOTHER network / chain id, submitted here: ids that differ from ours only in high bits (truncation),
+		// by one, by 2^8 / 2^16, and chain id analogues. "A transaction signed for one network or chain is never executed on another."
+		if signer.Kind != cs.KindRLP && signer.Kind != cs.KindRLPV2 && rapid.IntRange(0, 1).Draw(rt, "foreign-ids") == 0 {
+			type ids struct{ net, chain uint64 }
+			cands := []ids{{netID + 1<<32, chainID}, {netID + 2<<32, chainID}, {netID + 1<<63, chainID}, {netID + 1<<16, chainID}, {netID + 1<<8, chainID}, {netID + 1, chainID},
+				{netID, chainID + 1<<32}, {netID, chainID + 1<<16}, {netID, chainID + 1<<8}, {netID, chainID + 1<<63}, {netID + 1<<32, chainID + 1<<32}}
+			var vs []variant
+			names = names[:0]
+			for i, n := 0, rapid.IntRange(1, 4).Draw(rt, "n-foreign"); i < n; i++ {
+				f := cands[rapid.IntRange(0, len(cands)-1).Draw(rt, "foreign")]
+				me := signer.Address()
+				bz, _, err := c.Sign(signer, &fsm.MessageSend{FromAddress: me, ToAddress: cs.Addr(keys.Ed(2500 + salt)), Amount: uint64(100 + i)}, cs.TxOpts{Fee: cs.DefaultFee, Created: c.Height(), NetworkID: f.net, ChainID: f.chain})
+				if err != nil {
+					rt.Fatalf("harness: sign: %v", err)
+				}
+				label := fmt.Sprintf("fresh send signed for network %s chain %s", idText(netID, f.net), idText(chainID, f.chain))
+				cse.ClassIf(f.net-netID >= 1<<32 || f.chain-chainID >= 1<<32, "foreign-ids=differ-only-above-bit-31")
+				vs = append(vs, variant{label: label, class: "foreign-ids", bz: bz, decodes: true, differs: true})
+				names = append(names, label)
+				cse.Class("trick=signed-for-foreign-ids")
+			}
+			cse.Desc("h%d[%s]", c.Height(), strings.Join(names, ", "))
+			if msg := replayRound(rt, c, vs, fmt.Sprintf("chain %d network %d height %d", chainID, netID, c.Height())); msg != "" {
+				rt.Fatalf("VIOLATION C06: %s", strings.Replace(msg, "of an already included transaction was EXECUTED again", "signed for ANOTHER network / chain id was EXECUTED here", 1))
+			}
+		}
 		// --- another chain / network with the same genesis keys
 		if rapid.IntRange(0, 1).Draw(rt, "other-chain") == 0 {
 			oc, on := chainID, netID
@@ -709,4 +736,26 @@ func dedup(txs [][]byte) [][]byte {
 		}
 	}
 	return out
+}
+
+// idText renders a foreign id relative to ours.
+func idText(ours, theirs uint64) string {
+	switch d := theirs - ours; {
+	case d == 0:
+		return fmt.Sprintf("%d(ours)", ours)
+	case d >= 1<<8:
+		return fmt.Sprintf("%d+2^%d", ours, log2(d))
+	default:
+		return fmt.Sprintf("%d+%d", ours, d)
+	}
+}
+
+// log2 of a power of two (0 for 0): label helper.
+func log2(v uint64) int {
+	n := 0
+	for v > 1 {
+		v >>= 1
+		n++
+	}
+	return n
 }
